@@ -106,10 +106,10 @@ Definition has (k : bytes) (l : list bytes) : bool := existsb (bytes_eqb k) l.
     the model predicted the observed output.
       1  the key was written at a GC yield point (F12: GC writes its stale copy back over it)
       3  the read fails in the value log: a deleted/expired entry whose file GC removed
-      4  Txn.Get reports a zero-length value (meta 0) as absent once a table serves it
       11 an older write of the same version answers (C01-F2 / C02-F2: equal internal keys in tables
          whose order is not their age), not caused by GC
-    (classes 2 and 12 - an older VERSION answering, after a GC write-back or after user writes in
+    (class 4 - Txn.Get reporting a zero-length value as absent once a table serves it - was retired
+    with /repo 0719305; classes 2 and 12 - an older VERSION answering, after a GC write-back or after user writes in
     non-increasing version order - were retired with the repair of LSM.Get, /repo 2f52ea0; such a
     read is now a violation outside every class) *)
 Definition classify (now : N) (a : acc) (k : bytes) (spec lsm : option rec) (agree txn : bool) (o : obs) : N :=
@@ -118,13 +118,10 @@ Definition classify (now : N) (a : acc) (k : bytes) (spec lsm : option rec) (agr
   else match o, lsm with
        | OErr, Some m => if dead now m then 3 else 999
        | ONone, Some m =>
-           if txn && (blen (r_val m) =? 0) && (r_meta m =? 0) &&
-              match spec with Some w => (r_ver w =? r_ver m) && (r_seq w =? r_seq m) | None => false end
-           then 4
-           else match spec with
-                | Some w => if (r_ver m =? r_ver w) && (r_seq m <? r_seq w) then 11 else 999
-                | None => 999
-                end
+           match spec with
+           | Some w => if (r_ver m =? r_ver w) && (r_seq m <? r_seq w) then 11 else 999
+           | None => 999
+           end
        | _, _ =>
            match spec, lsm with
            | Some w, Some m => if (r_ver m =? r_ver w) && (r_seq m <? r_seq w) then 11 else 999
